@@ -1186,7 +1186,11 @@ READ_DELEGATIONS = [
 WEAK_DELEGATIONS = [
     # dereferencing walks from the start boundary to the end boundary, in that order, inside the start element's parent
     ("yrs::types::weak::LinkSource::unquote", r"StickyIndex::get_item$", {0: "self.quote_start", 1: "txn"}, None),
-    ("yrs::types::weak::LinkSource::unquote", r"weak::Unquote::new$", {0: "txn", 1: ("has", "StickyIndex::get_item(self.quote_start, txn)"), 2: "self.quote_start", 3: "self.quote_end"}, None),
+    ("yrs::types::weak::LinkSource::unquote", r"weak::Unquote::new$", {0: "txn", 1: ("has", ".parent)"), 2: "self.quote_start", 3: "self.quote_end"}, None),
+    # the walk starts at the head of the start element's PARENT: RangeIter looks for the start boundary itself — a walk that starts
+    # at the element the sticky index resolves to begins to the right of an excluded start and never finds it
+    ("yrs::types::weak::LinkSource::unquote", r"TypePtr::as_branch$", {0: ("has", "StickyIndex::get_item(self.quote_start, txn)")}, None),
+    ("yrs::types::weak::Unquote::new", r"iter::BlockIter::new$", {0: "parent.start"}, None),
     ("<yrs::types::weak::WeakRef<yrs::types::text::TextRef> as yrs::types::GetString>::get_string", r"LinkSource::to_string$", {0: "WeakRef::source(self)", 1: "txn"}, None),
     ("<yrs::types::weak::WeakRef<yrs::types::xml::XmlTextRef> as yrs::types::GetString>::get_string", r"LinkSource::to_xml_string$", {0: "WeakRef::source(self)", 1: "txn"}, None),
 ]
